@@ -822,6 +822,70 @@ fn write_one(imp: Impl, compressed: bool, p: Packet) -> Result<Vec<Vec<u8>>, Str
     Ok(out)
 }
 
+/// The peer's port is closed when the first packet is written (the kernel keeps the ICMP error for the socket), then the
+/// peer comes up on that port and four more packets are written: every write that RETURNS Ok has left as exactly one
+/// datagram holding its frame (a write that reports the error instead has told the caller).
+fn writes_after_a_refused_one(imp: Impl, compressed: bool) -> Result<(Vec<bool>, Vec<Vec<u8>>, Vec<Vec<u8>>), String> {
+    let codec = Codec::new(mode_of(compressed));
+    let packets: Vec<Packet> = (1..=5u8).map(|k| Packet::Tiny(insim::insim::Tiny { reqi: insim::identifiers::RequestId(k), subt: insim::insim::TinyType::Ping })).collect();
+    let frames: Vec<Vec<u8>> = packets.iter().map(|p| codec.encode(p).map(|b| b.to_vec()).map_err(|e| format!("harness: {e}"))).collect::<Result<_, _>>()?;
+    let addr = { let s = std::net::UdpSocket::bind("127.0.0.1:0").map_err(|e| format!("harness: {e}"))?; s.local_addr().unwrap() };
+    let mut oks = vec![];
+    let peer;
+    match imp {
+        Impl::Blocking => {
+            let sock = std::net::UdpSocket::bind("127.0.0.1:0").unwrap();
+            sock.connect(addr).unwrap();
+            let mut framed = blocking_impl::Framed::new(Box::new(blocking_impl::UdpStream::from(sock)), Codec::new(mode_of(compressed)));
+            oks.push(framed.write(packets[0].clone()).is_ok());
+            std::thread::sleep(Duration::from_millis(30));
+            peer = std::net::UdpSocket::bind(addr).map_err(|e| format!("harness: cannot bind the peer port: {e}"))?;
+            for p in &packets[1..] { oks.push(framed.write(p.clone()).is_ok()); }
+        },
+        Impl::Tokio => {
+            let rt = tokio::runtime::Builder::new_current_thread().enable_io().enable_time().build().unwrap();
+            let (o, p2) = rt.block_on(async {
+                let sock = tokio::net::UdpSocket::bind("127.0.0.1:0").await.unwrap();
+                sock.connect(addr).await.unwrap();
+                let mut framed = tokio_impl::Framed::new(Box::new(tokio_impl::UdpStream::from(sock)), Codec::new(mode_of(compressed)));
+                let mut o = vec![];
+                o.push(matches!(tokio::time::timeout(WATCHDOG_CONFIRM, framed.write(packets[0].clone())).await, Ok(Ok(()))));
+                tokio::time::sleep(Duration::from_millis(30)).await;
+                let p2 = std::net::UdpSocket::bind(addr).map_err(|e| format!("harness: cannot bind the peer port: {e}"))?;
+                for p in &packets[1..] { o.push(matches!(tokio::time::timeout(WATCHDOG_CONFIRM, framed.write(p.clone())).await, Ok(Ok(())))); }
+                Ok::<_, String>((o, p2))
+            })?;
+            oks = o;
+            peer = p2;
+        },
+    }
+    peer.set_read_timeout(Some(Duration::from_millis(300))).unwrap();
+    let mut got = vec![];
+    let mut buf = [0u8; 2048];
+    while let Ok(n) = peer.recv(&mut buf) { got.push(buf[..n].to_vec()); if got.len() > 8 { break; } }
+    Ok((oks, got, frames))
+}
+
+fn write_fault_checks(acc: &mut crate::report::Acc) {
+    for imp in [Impl::Blocking, Impl::Tokio] {
+        for compressed in [true, false] {
+            acc.eval();
+            let label = format!("{} {}: a packet written while the peer's port is closed, then four more once it is open", if imp == Impl::Blocking { "blocking" } else { "tokio" }, if compressed { "compressed" } else { "uncompressed" });
+            let replay = json!({"site": "writes-after-a-refused-one", "case": label});
+            match guard(|| writes_after_a_refused_one(imp, compressed)) {
+                Err(p) => acc.violate(0, format!("C08|{imp:?}|write|panic"), format!("{label}: {p}"), replay),
+                Ok(Err(e)) => { eprintln!("MACHINERY: {label}: {e}"); std::process::exit(4); },
+                Ok(Ok((oks, got, frames))) => {
+                    // what must have arrived: the frames of the writes 2..5 that returned Ok, in order (the first went to a closed port)
+                    let want: Vec<&Vec<u8>> = (1..5).filter(|k| oks[*k]).map(|k| &frames[k]).collect();
+                    if got.iter().collect::<Vec<_>>() == want { acc.class("accepted-writes-left-as-datagrams"); acc.nontrivial(); }
+                    else { acc.violate(0, format!("C08|{imp:?}|write|accepted-but-not-sent"), format!("{label}: the writes returned {oks:?}; the peer received {:?} where the frames of the accepted ones are {:?}", got.iter().map(|g| crate::report::hex(g)).collect::<Vec<_>>(), want.iter().map(|g| crate::report::hex(g)).collect::<Vec<_>>()), replay); }
+                },
+            }
+        }
+    }
+}
+
 pub fn run_check(tier: Tier, replay: Option<String>) -> i32 {
     let insts = Arc::new(instances(tier));
     if let Some(path) = replay {
@@ -873,6 +937,7 @@ pub fn run_check(tier: Tier, replay: Option<String>) -> i32 {
     adaptor_stream_checks(&mut acc);
     builder_connection_checks(&mut acc, tier);
     many_datagrams_checks(&mut acc);
+    write_fault_checks(&mut acc);
     acc.samples.push(json!({"instance": insts[0].label, "history (datagram sizes)": [1020, 1020, 1020, 1020, 1020, 1016, 8]}));
     let mut extra = serde_json::Map::new();
     let _ = extra.insert("states".into(), json!(states));
@@ -886,6 +951,7 @@ pub fn run_check(tier: Tier, replay: Option<String>) -> i32 {
         assumptions: vec![
             "loopback UDP with one datagram (or one burst of 2-3 datagrams, < 3 kB) in flight preserves boundaries and order; every wait carries a 2 s watchdog that turns a hang into a reported violation".into(),
             "writes: every kind's B1 packet, both implementations and modes, must arrive as exactly one datagram equal to Codec::encode(p)".into(),
+            "writes-after-a-refused-one: a packet written while the peer's port is closed, then four more after the peer has come up - every write that returned Ok left as one datagram".into(),
             "many-datagrams: 70 000 datagrams (6 compositions in a cycle, batches of 16 queued before the connection reads) on one connection per implementation and mode".into(),
             "builder-connection: every datagram composition (single and burst) again through connections made by the public Builder (blocking / tokio x mode x with / without a local address), one fresh connection each".into(),
         ],
